@@ -43,11 +43,25 @@ type HarnessFunc struct {
 }
 
 var dirRe = regexp.MustCompile(`(?m)^//vf:dir\s+(\S+)`)
+var useRe = regexp.MustCompile(`(?m)^//vf:use\s+(\S+)`)
 
 func loadHarnessFiles(prop string) ([]*HarnessFile, error) {
 	files, _ := filepath.Glob(filepath.Join(verifDir, "harness", prop, "*.go"))
 	sort.Strings(files)
 	var out []*HarnessFile
+	seenUse := map[string]bool{}
+	for i := 0; i < len(files); i++ {
+		f := files[i]
+		if src, err := os.ReadFile(f); err == nil {
+			for _, m := range useRe.FindAllSubmatch(src, -1) {
+				u := filepath.Join(verifDir, "harness", "shared", string(m[1]))
+				if !seenUse[u] {
+					seenUse[u] = true
+					files = append(files, u)
+				}
+			}
+		}
+	}
 	for _, f := range files {
 		src, err := os.ReadFile(f)
 		if err != nil {
@@ -59,6 +73,9 @@ func loadHarnessFiles(prop string) ([]*HarnessFile, error) {
 		}
 		hf := &HarnessFile{Path: f, Dir: string(m[1]), Src: src}
 		hf.Virtual = filepath.Join(repoDir, hf.Dir, "zz_verif_"+prop+"_"+filepath.Base(f))
+		if strings.Contains(f, "/harness/shared/") {
+			hf.Virtual = filepath.Join(repoDir, hf.Dir, "zz_verif_shared_"+filepath.Base(f))
+		}
 		fset := token.NewFileSet()
 		af, err := parser.ParseFile(fset, f, src, parser.ParseComments)
 		if err != nil {
